@@ -5,6 +5,7 @@
 -/
 import GrcVerif.Bytes
 import GrcVerif.Sfnt
+import GrcVerif.CmapColl
 namespace Grc.Cm
 
 structure Seg4 where
@@ -93,21 +94,30 @@ def mappedCodepoints (s : CmapSub) : List Nat :=
   (cands.filter fun c => c != 0xFFFE ∧ c != 0xFFFF ∧ lookup s c != 0).mergeSort (· ≤ ·) |>.eraseDups
 
 /-- Code points that share a glyph with another code point, in the order the compiler records them
-    (GrcFont::ScanGlyfIds): on the second code point of a glyph the first is recorded too. -/
-def collisions (s : CmapSub) : List Nat := Id.run do
-  let mut firstSeen : List (Nat × Nat) := []     -- glyph → first code point
-  let mut multi : List Nat := []                   -- glyphs that already collided
-  let mut out : List Nat := []
-  for c in mappedCodepoints s do
-    let g := lookup s c
-    match firstSeen.find? (·.1 == g) with
-    | none => firstSeen := (g, c) :: firstSeen
-    | some (_, c0) =>
-      if !multi.contains g then
-        out := out ++ [c0]
-        multi := g :: multi
-      out := out ++ [c]
-  return out
+    (GrcFont::ScanGlyfIds, transcribed in CmapColl.lean): on the second code point of a glyph the first is recorded too. -/
+def collisions (s : CmapSub) : List Nat := collScan (lookup s) (mappedCodepoints s)
+
+theorem mappedCodepoints_nodup (s : CmapSub) : (mappedCodepoints s).Nodup := by
+  unfold mappedCodepoints
+  exact nodup_eraseDups _
+
+theorem mappedCodepoints_ne_ffff (s : CmapSub) (c : Nat) (h : c ∈ mappedCodepoints s) : c ≠ 0xFFFF := by
+  unfold mappedCodepoints at h
+  rw [List.mem_eraseDups, List.mem_mergeSort, List.mem_filter] at h
+  intro e
+  have := h.2
+  simp [e] at this
+
+/-- The compiler's scan records exactly the mapped code points whose glyph another mapped code point has too, each
+    once - for every cmap in which U+0000 is not mapped (the scan uses 0 as its "glyph not seen" mark). -/
+theorem mem_collisions_iff (s : CmapSub) (h0 : 0 ∉ mappedCodepoints s) (c : Nat) :
+    c ∈ collisions s ↔ c ∈ mappedCodepoints s ∧ ∃ c' ∈ mappedCodepoints s, c' ≠ c ∧ lookup s c' = lookup s c :=
+  mem_collScan_iff (lookup s) _ (mappedCodepoints_nodup s)
+    (fun x hx => ⟨fun e => h0 (e ▸ hx), mappedCodepoints_ne_ffff s x hx⟩) c
+
+theorem collisions_nodup (s : CmapSub) (h0 : 0 ∉ mappedCodepoints s) : (collisions s).Nodup :=
+  collScan_nodup (lookup s) _ (mappedCodepoints_nodup s)
+    (fun x hx => ⟨fun e => h0 (e ▸ hx), mappedCodepoints_ne_ffff s x hx⟩)
 
 /-! ### Pseudo-glyph allocation -/
 
